@@ -166,13 +166,18 @@ func vfC08Split(c int) {
 
 // ---- symbolic triangle: vertices in the box, closed, wholly-inside unchanged, disjoint nil ----
 
-func vfC08Triangle_N(tier int) int     { return 1 + tier }
-func vfC08Triangle_Label(c int) string { return []string{"one symbolic vertex", "two symbolic vertices"}[c] }
+func vfC08Triangle_N(tier int) int { return 2 + tier }
+func vfC08Triangle_Label(c int) string {
+	return []string{"one symbolic vertex, base through the box", "one symbolic vertex, base vertex below the box", "two symbolic vertices"}[c]
+}
 
 func vfC08Triangle(c int) {
 	box := orb.Bound{Min: orb.Point{0, 0}, Max: orb.Point{1, 1}}
 	p := []orb.Point{{-0.5, 0.25}, {1.5, 0.5}, {vfReal("cx"), vfReal("cy")}}
-	if c == 1 {
+	switch c {
+	case 1:
+		p[0] = orb.Point{0.25, -0.5}
+	case 2:
 		// (three symbolic vertices: more than 2500 paths / 15 min without finishing; not registered)
 		p[1] = orb.Point{vfReal("bx"), vfReal("by")}
 	}
@@ -199,6 +204,22 @@ func vfC08Triangle(c int) {
 	left := vfAnd(p[0][0] < 0, vfAnd(p[1][0] < 0, p[2][0] < 0))
 	if vfSymTrue(left) {
 		vfAssert("disjoint-gives-nil", len(out) == 0)
+	}
+	if c < 2 {
+		// region: every point strictly inside the box and off the boundaries is in the clipped ring
+		// exactly when it is in the triangle (the third vertex is any real point)
+		q := orb.Point{vfReal("qx"), vfReal("qy")}
+		vfAssume(vfAnd(vfAnd(box.Min[0] < q[0], q[0] < box.Max[0]), vfAnd(box.Min[1] < q[1], q[1] < box.Max[1])))
+		tri := orb.Ring{p[0], p[1], p[2]}
+		vfAssume(vfNot(vfOnRing(tri, q)))
+		want := vfEvenOdd(tri, q)
+		if len(out) == 0 {
+			vfAssert("triangle-nothing-remains-only-if-nothing-inside", vfNot(want))
+			return
+		}
+		oo := orb.Ring(out[:len(out)-1])
+		vfAssume(vfNot(vfOnRing(oo, q)))
+		vfAssert("triangle-region-preserved", vfEvenOdd(oo, q) == want)
 	}
 }
 
